@@ -10,7 +10,8 @@ SeedN    == atoi(IOEnv.VERIF_SEED)
 BaseLens == {0, 1, 2, 3, 4, 5, 127, 128, 129, 130, 255, 256, 257, 511, 512, 513, 4095, 4096, 4097,
              65535, 65536, 65537}
 BigLens  == {131072, 1048576, 2097152}
-SeedLens == {((SeedN % 1000) * 7919 + j * 10473) % 66000 : j \in 1..3}
+SeedLens == {((SeedN % 1000) * 7919 + j * 10473) % 66000 : j \in 1..(IF Thorough THEN 30 ELSE 3)}
+            \cup (IF Thorough THEN {((SeedN % 1000) * 7919 + j * 1047301) % 2097153 : j \in 1..4} ELSE {})
 LosslessClasses == {"zeros", "run", "period2", "period3", "period7", "period128", "period129",
                     "sparse7f", "sparse80", "sparse81", "sparse", "random", "text", "ramp", "mixed"}
 PcmLens    == {0, 1, 2, 4, 5, 6, 8, 128, 130, 256, 512, 513, 4096, 4098, 65536}
